@@ -480,9 +480,16 @@ impl<'a> GExec<'a> {
             201 => Some(self.gws[g].example.clone()),
             _ => None,
         };
-        let s_addr = contract_sender.clone().unwrap_or_else(|| self.principals[s_i].clone());
+        // sender 100..103: the account address carrying the same 32 bytes as a principal's contract
+        // address.  Its contract twin's authorisation is not the account's; only the permissive
+        // mode (everybody authorises everything) speaks for it.
+        let account_sender: Option<Address> = if (100..104).contains(&sender) { Some(crate::host::account_twin(&env, &self.principals[s_i])) } else { None };
+        let s_addr = contract_sender.clone().or(account_sender.clone()).unwrap_or_else(|| self.principals[s_i].clone());
         if contract_sender.is_some() {
             ctx.count("probe.contract_address_named_as_sender_from_outside");
+        }
+        if account_sender.is_some() {
+            ctx.count("probe.account_address_named_as_sender");
         }
         let pl = payload.resolve();
         let (c, a) = (chain.resolve(), addr.resolve());
@@ -514,10 +521,10 @@ impl<'a> GExec<'a> {
                 aa.set(3, Bytes::from_slice(&env, &p2).into_val(&env));
             }
             entries.push(AuthEntry {
-                who: self.principals[w].clone(),
+                who: if account_sender.is_some() && auth == AuthVar::Everyone { s_addr.clone() } else { self.principals[w].clone() },
                 root: AuthNode::new(&gaddr, "call_contract", aa),
             });
-            ok = w == s_i && !other_args && contract_sender.is_none();
+            ok = w == s_i && !other_args && contract_sender.is_none() && (account_sender.is_none() || auth == AuthVar::Everyone);
         }
         if auth.is_fault() {
             ctx.count(&format!("F7.call_contract.{}", auth.name()));
